@@ -440,6 +440,7 @@ func runC13(c *Ctx) {
 	ruleVarintFastPath(c, p, "C13.varint")
 	ruleSettingsEnd(c, p, "C13.settings-end")
 	ruleReadFull(c, p, "C13.readfull")
+	ruleOpenCodes(c, p, "C13.open-codes")
 	hs := p.Method(core.PkgCh, "Client", "handshake")
 	if !c.must(p, "(*ch.Client).handshake", hs != nil) {
 		return
